@@ -102,11 +102,12 @@ def parseField2 (a : Attempt) (k v : String) : Option Attempt :=
   | "u" => some { a with setUrl := some v }
   | "s" => v.toNat?.map fun n => { a with status := some n }
   | "ls" => v.toNat?.map fun n => { a with lateStatus := some n }
-  -- w / wc / wn / ws / wf: how the handler writes (Write, io.Copy, io.CopyN, io.WriteString, fmt.Fprintf); a write of n bytes either way
+  -- w / wc / wn / ws / wf: how the handler writes (Write, io.Copy, io.CopyN, io.WriteString, fmt.Fprintf); a write of n bytes either way, except that copying 0 bytes is no call
   | "w" | "wc" | "wn" | "ws" | "wf" =>
     match v.splitOn "." with
     | [l, s] => match l.toNat?, s.toNat? with
-      | some l, some s => some { a with writes := a.writes ++ [expand l s] }
+      -- io.Copy / io.CopyN from an empty source make no call at all on a writer that has no ReadFrom (bufferWriter has none)
+      | some l, some s => if l == 0 && (k == "wc" || k == "wn") then some a else some { a with writes := a.writes ++ [expand l s] }
       | _, _ => none
     | _ => none
   | _ => none
